@@ -338,9 +338,13 @@ func HarnessC17LimitZero() {
 
 // C17.provider: the limits as configured through the provider options reach
 // the records a logger emits (including a value-length limit of exactly 0)
-type c17Capture struct{ got []Record }
+type c17Capture struct {
+	got   []Record
+	extra []log.KeyValue // attributes the processor adds while the record is emitted
+}
 
 func (c *c17Capture) OnEmit(_ context.Context, r *Record) error {
+	r.AddAttributes(c.extra...)
 	c.got = append(c.got, r.Clone())
 	return nil
 }
@@ -358,12 +362,24 @@ func HarnessC17Provider() {
 	var ar log.Record
 	m := &c17Model{}
 	keys := []string{"a", "b"}
-	n := 1 + vndChoice(2)
+	n := vndChoice(3) // 0..2 attributes on the emitted record
 	for i := 0; i < n; i++ {
 		k := keys[vndChoice(2)]
 		v, o := c17Value(2)
 		ar.AddAttributes(log.KeyValue{Key: k, Value: v})
 		m.add(countLimit, log.KeyValue{Key: k, Value: o})
+	}
+	// and 0..2 more added by the processor while emitting (one call)
+	ne := vndChoice(3)
+	var extraModel []log.KeyValue
+	for i := 0; i < ne; i++ {
+		k := []string{"a", "c"}[i]
+		v, o := c17Value(2)
+		cap.extra = append(cap.extra, log.KeyValue{Key: k, Value: v})
+		extraModel = append(extraModel, log.KeyValue{Key: k, Value: o})
+	}
+	for _, kv := range extraModel {
+		m.add(countLimit, kv)
 	}
 	p.Logger("l").Emit(context.Background(), ar)
 	vndAssert(len(cap.got) == 1, "record-reaches-the-processor")
